@@ -98,7 +98,9 @@ def evaluate(case):
                         viols.append({'oracle': 'finite', 'key': key, 'detail': [x.tolist() for x in L]})
                     else:
                         asym = max(float(np.abs(x - x.T).max()) for x in L) / vm.tscale(*L)
-                        if asym > 1e-9: viols.append({'oracle': 'symmetric', 'key': key, 'detail': asym})
+                        # the standard algorithm solves a system of condition number ~ omega2*g: its round-off (eps x scale) is not
+                        # symmetric; the large-omega2 algorithm is held to 1e-9 at every scale
+                        if asym > max(1e-9, 0. if took_large else 1e-15 * s): viols.append({'oracle': 'symmetric', 'key': key, 'detail': asym})
                     outcomes.append('{}:{:.5e}'.format(int(took_large), float(np.trace(L[1]))))
             # ---- standard vs large at this scale
             if (s, 'std') in res and (s, 'large') in res and s <= 1e6:
